@@ -87,6 +87,36 @@ theorem findapDef_neg (tol : α) (y : List α) : findapDef tol (y.map (- ·)) = 
   unfold findapDef
   rw [stol_neg, findapDefSt_neg]
 
+theorem hystMask_neg (st : α) (l : List α) :
+    ∀ h : α, hystMask st (-h) (l.map (- ·)) = hystMask st h l := by
+  induction l with
+  | nil => intro h; rfl
+  | cons x r ih =>
+      intro h
+      simp only [List.map_cons, hystMask, absd_neg]
+      split
+      · rw [ih]
+      · rw [ih]
+
+theorem findapDefFixSt_neg (st : α) (y : List α) :
+    findapDefFixSt st (y.map (- ·)) = findapDefFixSt st y := by
+  match y with
+  | [] => rfl
+  | [_] => rfl
+  | a :: b :: r =>
+      simp only [List.map_cons, findapDefFixSt, fixMask_eq]
+      have hu := hystMask_neg st (b :: r) a
+      simp only [List.map_cons] at hu
+      rw [hu]
+      have hs := select_map (fun x : α => -x) (true :: hystMask st a (b :: r)) (a :: b :: r)
+      simp only [List.map_cons] at hs
+      rw [hs, pvOf_neg]
+
+/-- the default `findap` (current code) selects the same samples of `-y` as of `y` -/
+theorem findapDefFix_neg (tol : α) (y : List α) : findapDefFix tol (y.map (- ·)) = findapDefFix tol y := by
+  unfold findapDefFix
+  rw [stol_neg, findapDefFixSt_neg]
+
 end PyYetiVerif.Findap
 
 namespace PyYetiVerif.Fde
@@ -104,8 +134,8 @@ theorem rainflow_neg (pts : List α) :
 /-- the `(amp, count)` cycle table of `-y` is that of `y` -/
 theorem cyclesOf_neg (tol : α) (y : List α) : cyclesOf tol (y.map (- ·)) = cyclesOf tol y := by
   unfold cyclesOf
-  rw [Findap.findapDef_neg]
-  cases Findap.findapDef tol y with
+  rw [Findap.findapDefFix_neg]
+  cases Findap.findapDefFix tol y with
   | none => rfl
   | some m =>
       simp only []
